@@ -316,6 +316,23 @@ func init() {
 			in.yield()
 			return nil
 		},
+		// verifSettle: wait until every other goroutine has finished or is blocked
+		"verifSettle": func(in *Interp, fr *frame, a []value) value {
+			me := in.sched.cur
+			in.block("settle", func() bool {
+				for _, g := range in.sched.gs {
+					if g == me || g.done {
+						continue
+					}
+					if g.ready == nil || g.ready() {
+						return false
+					}
+				}
+				return true
+			})
+			return nil
+		},
+		"verifTier": func(in *Interp, fr *frame, a []value) value { return uint64(in.cfg.Tier) },
 		"verifName": func(in *Interp, fr *frame, a []value) value {
 			return fmt.Sprintf("%s%d", in.concStr(a[0], "verifName"), in.concInt(a[1], "verifName"))
 		},
